@@ -125,9 +125,10 @@ func (node *OuterJoin) Typecheck(ctx context.Context, env physical.Environment, 
 
 	return physical.Node{
 		Schema: physical.Schema{
-			Fields:        outSchemaFields,
-			TimeField:     left.Schema.TimeField,
-			NoRetractions: left.Schema.NoRetractions && right.Schema.NoRetractions,
+			Fields:    outSchemaFields,
+			TimeField: left.Schema.TimeField,
+			// The NULL-padded row of an unmatched record is retracted when a match arrives later.
+			NoRetractions: false,
 		},
 		NodeType: physical.NodeTypeOuterJoin,
 		OuterJoin: &physical.OuterJoin{
